@@ -15,7 +15,8 @@ EXPLANATION = (
     "every iteration, not when something happens for a given TTL and observation sequence."
     " (f) A matched cached record always gets reset_ttl(incoming)."
     " (g) Expiry times only move forward outside reset_ttl. In run, refresh_active_services comes before the hostname-resolver refresh in every iteration (they share a record's refresh mark; the resolver step disarms it), wherever the steps live (inline or helper)."
-    " (h) refresh_due_srv_txt records RRType::SRV under the test on DnsCache.srv and TXT under the test on DnsCache.txt.")
+    " (h) refresh_due_srv_txt records RRType::SRV under the test on DnsCache.srv and TXT under the test on DnsCache.txt."
+    " (i) Every answer of a response reaches add_or_update (shared with C03i).")
 UNDECIDED = ["when something happens for a given TTL and observation sequence (skipped marks, restart after an answer, u32::MAX TTLs) — run-time quantities",
              "that a fresh copy restarts the schedule as a trace property (only reset_ttl's formula is decided)"]
 
